@@ -5,7 +5,7 @@ IDS = [1, 2, 3, 4, 5, 6, 9, 10, 11, 12, 13, 14, 16, 21, 22, 23, 24, 25, 26, 27, 
 B = "TCAG"
 CODONS = [x + y + z for x in B for y in B for z in B]
 
-RULE = ("table N for N in 0..40 (the 25 ids and the absent ones; the extractor probes -1..255); tr: every id x every one of the 64 codons as its own case "
+RULE = ("table N for N in 0..40 (the 25 ids and the others: absent, or offered beside NCBI's 25 - reported as class table/extra-id-offered, never judged; the extractor probes 0..255); tr: every id x every one of the 64 codons as its own case "
         "(exhaustive), every id x the 192-letter string of all codons, in upper, lower and mixed case; split: random A/C/G/T strings "
         "(length log-uniform 1..3000, random case) under every id, EVERY codon-boundary split point for lengths up to 300 (quick) / "
         "700 (thorough) and for one string of 900 / 3000 letters, 8 / 24 random split points otherwise; case: random re-casing masks; tail: every partial tail of length 0..2; "
@@ -22,7 +22,7 @@ TRUSTED_BASE = ["Spec/Ncbi.lean: the 25 NCBI genetic codes (standard code, reass
                 "(gc.prt v4.6 / Biopython CodonTable), expanded the spec back into that form and compared it letter by letter with both the spec "
                 "and codon.go's strings: no discrepancy (notes/reviews/C06.md). The spec's internal consistency is kernel-checked "
                 "(spec_standard_partition, spec_reassignments_consistent, spec_total, spec_starts_stops_consistent, spec_stops_are_star_cells). "
-                "NCBI codes 15 and 32 are not offered by the library and are outside the property; ids_complete would flag their addition",
+                "NCBI codes 15 and 32 are not offered by the library and are outside the property; an id offered beside the 25 (an alias, a new code) is reported, not judged",
                 "strings.ToUpper is modelled by the ASCII mapping; outside ASCII Unicode upper-casing never yields A, C, G or T (the only "
                 "non-ASCII letters with an ASCII upper case are dotless i and long s), so for tables over A/C/G/T the two agree on every string",
                 "Go map semantics (last write wins, missing key reads as \"\") as modelled by `mapGet`"]
@@ -153,7 +153,7 @@ def cases(seed, tier):
 TECHNIQUE = ("Lean 4 proof: decide on the regenerated tables against an independently shaped NCBI spec (25 x 64 cells, start and stop "
              "lists), induction over strings for the frame / concatenation / case laws; differential correspondence of Translate")
 LEVEL_TEXT = ("Spec self-consistency (standard code partitions the 64 codons, no repeated or no-op reassignment, stops = '*' cells except "
-              "codes 27/28/31) is kernel-checked. Table clauses: ids_complete, codon_by_codon (all 1600 cells: NCBI's residue = what the compiled Translate returned = what the "
+              "codes 27/28/31) is kernel-checked. Table clauses: ids_complete (every one of the 25 NCBI ids is offered; extra ids are reported, not judged), codon_by_codon (all 1600 cells: NCBI's residue = what the compiled Translate returned = what the "
               "model reads from the regenerated table), starts_eq, stops_eq, triplets_partition are decided by the kernel on tables "
               "re-extracted from the compiled code on every run. String clauses are theorems for every table and every string of any "
               "length and any letters (codons are framed by letters): translate_chunks, translate_append, translate_tail, translate_case (+ upper/lower corollary), translate_foreign_codon (a codon holding a non-A/C/G/T letter gives no residue), translate_append_api / translate_empty_piece (the law at the API), translate_len and "
